@@ -325,6 +325,51 @@ Definition chk_narrow (c : schema * nat * list str * bool) : bool :=
 """
 IMPORTS = "Base Decimal Tree Json EsSpecs EsCheck EsBuild Schema"
 IMPORTS_C = IMPORTS + " SchemaSpec SchemaProofs"
+DEFS_E = """
+(* C19w: the guards of C19_query_mapping_partial — predicates on the MAPPING only — evaluated on
+   (description, index of the document type, name components, the property held on the implementation,
+    harness anchor_registered(ancestors), harness redeclared(description, ancestors)) *)
+Definition mcase := (schema * nat * list str * bool * bool * bool)%type.
+Definition mresolved (c : mcase) : option (schema * fdef * list (str * fdef) * bool * bool * bool) :=
+  let '(s, k, comps, held, reg, red) := c in
+  match nth_error (doc_props s) k with
+  | None => None
+  | Some props =>
+      match resolve props [] comps with
+      | None => None
+      | Some (d, anc) => Some (s, d, anc, held, reg, red)
+      end
+  end.
+Definition mguards (c : mcase) : option bool :=
+  match mresolved c with
+  | None => None
+  | Some (s, d, anc, _, _, _) =>
+      Some (wf_schema s && coherent s && types_agree s && subfield_ok anc d && anchor_registered anc &&
+            negb (redeclared s anc) && is_leaf_def d)
+  end.
+(* C19_query_mapping_partial read on the implementation: guards => the property held *)
+Definition chk_msound (c : mcase) : bool :=
+  match mguards c, mresolved c with Some g, Some (_, _, _, held, _, _) => negb g || held | _, _ => false end.
+(* narrowness: the property held => the guards hold *)
+Definition chk_mnarrow (c : mcase) : bool :=
+  match mguards c, mresolved c with Some g, Some (_, _, _, held, _, _) => g || negb held | _, _ => false end.
+(* the Coq predicates ARE the executable predicates of F12 and F12c of this harness *)
+Definition chk_mpred (c : mcase) : bool :=
+  match mresolved c with
+  | Some (s, _, anc, _, reg, red) => Bool.eqb (anchor_registered anc) reg && Bool.eqb (redeclared s anc) red
+  | None => false
+  end.
+(* C19_walk_sane_derived / C19_anchor_link read on the generated descriptions: the mapping-level guards imply
+   the walk-level ones *)
+Definition chk_mlink (c : mcase) : bool :=
+  match mresolved c with
+  | Some (s, _, anc, _, _, _) =>
+      negb (wf_schema s && types_agree s) ||
+      (walk_sane s && (negb (anchor_registered anc && negb (redeclared s anc)) || anchor_survives s anc))
+  | None => false
+  end.
+"""
+IMPORTS_E = IMPORTS_C + " SchemaMoreProofs"
 
 
 # ------------------------------------------------------------------ independent oracle
@@ -554,6 +599,21 @@ SPELLINGS = {
 }
 
 
+# object_fields / sub_fields of the same mapping, spelled in different ways (C19w.v: ob1-ob3, su1-su2 are among them)
+OBJECT_SPELLINGS = {
+    "list": ["manager.firstname"],
+    "dict of list": {"manager": ["firstname"]},
+    "nested dicts": {"manager": {"firstname": None}},
+    "dotted key": {"manager.firstname": {}},
+}
+SUB_SPELLINGS = {
+    "list": ["title.raw", "author.name.raw"],
+    "dict, dotted key": {"title": ["raw"], "author.name": {"raw": {}}},
+    "nested dicts": {"title": {"raw": None}, "author": {"name": ["raw"]}},
+    "dotted names inside": {"title.raw": None, "author": ["name.raw"]},
+}
+
+
 def spelling_oracle(res):
     """last clause of the property, on the implementation: equivalent spellings of the nested-fields specification
     configure identical behaviour (every leaf in both query spellings, every container queried directly)"""
@@ -606,6 +666,40 @@ def spelling_oracle(res):
                                           "spelling": label, "nested_fields": repr(spec), "query": q,
                                           "with_this_spelling": repr(got)[:500],
                                           "with_the_analyzer_options": repr(want)[:500]}, None))
+    # object_fields and sub_fields (C19_spellings_behaviour covers them too): every combination of spellings, with
+    # two spellings of the nested fields, on every path of the mapping and on unknown fields (sub_fields given:
+    # an unknown dotted name is refused); then {} against [] (C19_spellings_behaviour_named: parsed trees have no
+    # empty field name)
+    def denoted_all(spec):
+        return denoted(spec) if spec else set()
+    for group in (OBJECT_SPELLINGS, SUB_SPELLINGS):
+        assert len({frozenset(denoted_all(v)) for v in group.values()}) == 1, "spellings that do not denote the same names"
+    paths = list(walk(SPELL_PROPERTIES)) + [("manager", "label"), ("author", "zzz"), ("title", "fr"), ("zzz",),
+                                            ("author", "name", "zzz")]
+    first_o, first_s = list(OBJECT_SPELLINGS.values())[0], list(SUB_SPELLINGS.values())[0]
+    for path in paths:
+        for q in queries(path):
+            want = run(dict(base, object_fields=first_o, sub_fields=first_s), q)
+            for nlabel in ("flat list of dotted names", "dotted key first, then a nested dict"):
+                for olabel, ospec in OBJECT_SPELLINGS.items():
+                    for slabel, sspec in SUB_SPELLINGS.items():
+                        n += 1
+                        got = run(dict(base, nested_fields=SPELLINGS[nlabel], object_fields=ospec, sub_fields=sspec), q)
+                        if got != want:
+                            res.failures.append(({"why": "equivalent spellings of object_fields / sub_fields configure "
+                                                         "another behaviour", "nested_fields": nlabel,
+                                                  "object_fields": repr(ospec), "sub_fields": repr(sspec), "query": q,
+                                                  "with_these_spellings": repr(got)[:500],
+                                                  "with_the_first_spellings": repr(want)[:500]}, None))
+            for empty_o, empty_s in (({}, []), ([], {}), ({}, {})):
+                n += 1
+                want_e = run(dict(base, object_fields=[], sub_fields=[]), q)
+                got_e = run(dict(base, object_fields=empty_o, sub_fields=empty_s), q)
+                if got_e != want_e:
+                    res.failures.append(({"why": "{} and [] as object_fields / sub_fields configure another behaviour on "
+                                                 "a parsed query", "object_fields": repr(empty_o),
+                                          "sub_fields": repr(empty_s), "query": q, "got": repr(got_e)[:500],
+                                          "with_empty_lists": repr(want_e)[:500]}, None))
     return n
 
 
@@ -623,6 +717,7 @@ def correspond(model_ok, res):
 
     cases_a, payload_a, cases_b, payload_b = [], [], [], []
     cases_c, payload_c = [], []
+    cases_e = []
     dist = {"schemas": {}, "layout": {"current": 0, "legacy": 0}, "leaves": 0, "sub_leaves": 0,
             "nested_depth": {}, "spelling": {"dotted": 0, "chain": 0}, "outcome": {"ok": 0, "exc": 0},
             "oracle": {"judged": 0, "held": 0, "F12": 0, "F12b": 0, "F12c": 0, "skipped_not_plain": 0,
@@ -705,6 +800,9 @@ def correspond(model_ok, res):
                     why = judge(exp, outcome, word)
                     cases_c.append("(%s, %d%%nat, %s, %s)" % (gs, doc_index, g_strs(names), lib.g_bool(why is None)))
                     payload_c.append({"schema": snapshot, "query": q, "field": dotted, "held": why is None})
+                    cases_e.append("(%s, %d%%nat, %s, %s, %s, %s)" % (
+                        gs, doc_index, g_strs(names), lib.g_bool(why is None), lib.g_bool(anchor_registered(anc)),
+                        lib.g_bool(redeclared(schema, anc))))
                     if why is None:
                         dist["oracle"]["held"] += 1
                         # exactness of the guards: the predicates of the findings on inputs where the property held
@@ -771,6 +869,34 @@ def correspond(model_ok, res):
                       "property_held_but_guard_false": len(bad_narrow),
                       "first_held_but_guard_false": [payload_c[i] for i in bad_narrow[:3]]}
     res.cases += len(cases_c)
+    # C19w: the same with the guards of C19_query_mapping_partial, which are predicates on the mapping only
+    try:
+        canary_e = "(mkSchema None (mkMappings None []), 0%nat, [[97]%N], true, true, false)"     # nothing resolves
+        bad_ms = lib.eval_cases("C19e", IMPORTS_E, DEFS_E, cases_e + [canary_e], "chk_msound", shard=80)
+        bad_mn = lib.eval_cases("C19f", IMPORTS_E, DEFS_E, cases_e, "chk_mnarrow", shard=80)
+        bad_mp = lib.eval_cases("C19g", IMPORTS_E, DEFS_E, cases_e, "chk_mpred", shard=80)
+        bad_ml = lib.eval_cases("C19h", IMPORTS_E, DEFS_E, cases_e, "chk_mlink", shard=80)
+    except Exception as e:  # noqa
+        res.model_error = str(e)[-3000:]
+        return res
+    if len(cases_e) not in bad_ms:
+        res.model_error = "canary case not reported: the mapping-guard comparison is vacuous"
+    for i in bad_ms:
+        if i < len(cases_e):
+            res.disagreements.append(dict(payload_c[i], which="guards of C19_query_mapping_partial hold but the "
+                                                               "property failed on the implementation"))
+    for i in bad_mp:
+        res.disagreements.append(dict(payload_c[i], which="SchemaSpec.anchor_registered / SchemaMoreProofs.redeclared "
+                                                           "differ from the harness predicates of F12 / F12c"))
+    for i in bad_ml:
+        res.disagreements.append(dict(payload_c[i], which="mapping-level guards hold but walk_sane / anchor_survives "
+                                                           "evaluate to false (contradicts C19_walk_sane_derived / "
+                                                           "C19_anchor_link)"))
+    dist["mapping_guards"] = {"evaluated": len(cases_e),
+                              "hold": len([1 for i, p in enumerate(payload_c) if p["held"] and i not in set(bad_mn)]),
+                              "property_held_but_guard_false": len(bad_mn),
+                              "first_held_but_guard_false": [payload_c[i] for i in bad_mn[:3]]}
+    res.cases += len(cases_e)
     for i in bad_a:
         if i < len(cases_a):
             res.disagreements.append(dict(payload_a[i], which="analyzer methods"))
@@ -790,14 +916,45 @@ SPEC = {
                  "C19_nesting_registered_refuted",
                  "C19_typing_refuted", "C19_typing_partial", "C19_typing_walk_partial", "C19_subfield_typing_partial",
                  "C19_not_analyzed_fields", "C19_object_fields", "C19_nested_spellings", "C19_object_spellings"],
+    # the gaps an audit listed for C19, closed: walk_sane derived from the mapping, anchor_survives linked to the
+    # executable predicates of F12 / F12c, spellings of nested / object / sub field specifications on `build`
+    "more": [{"module": "C19w", "target": "props/C19w.vo",
+              "theorems": ["C19_walk_sane_derived", "C19_types_agree_single", "C19_coherent_single", "C19_anchor_link",
+                           "C19_query_mapping_partial", "C19_query_modern", "C19w_types_agree_needed",
+                           "C19_reads_sets", "C19_nested_spellings_exact", "C19_spellings_behaviour",
+                           "C19_spellings_behaviour_named", "C19w_empty_dict_needed"]}],
     "correspond": correspond,
-    "statement": "C19_query_partial (proved): a mapped leaf queried in either spelling is never refused and gives "
+    "statement": "C19w.v — C19_query_mapping_partial (proved): the statement of C19_query_partial with guards on the "
+                 "MAPPING (and the resolved field) only: wf_schema s; coherent s; types_agree s (the document types "
+                 "agree, at every path they both declare, on being nested / an explicit object; trivially true with "
+                 "one document type); subfield_ok anc d (not F12b); anchor_registered anc (not F12: the executable "
+                 "predicate of this harness); redeclared s anc = false (not F12c: the executable predicate of this "
+                 "harness); query word without wildcard; un-named query nodes. walk_sane is DERIVED "
+                 "(C19_walk_sane_derived: wf_schema + types_agree => walk_sane; not from wf_schema alone: "
+                 "C19w_types_agree_needed, d1: a nested / d2: a object, replayed), anchor_survives is DERIVED "
+                 "(C19_anchor_link), the dot-free / non-empty path components follow from wf_schema. "
+                 "C19_query_modern: with one document type (the current layout) the guards are wf_schema, "
+                 "subfield_ok, anchor_registered only (coherent is derived too: C19_coherent_single). "
+                 "Spellings: C19_spellings_behaviour (proved): configurations that differ only in the spelling of "
+                 "nested_fields / object_fields / sub_fields (same denoted dotted names; for object and sub fields "
+                 "also None with None and {} with {}) give the same result of `build` on EVERY tree — the builder "
+                 "reads the three specifications only through the normalised name / prefix sets (C19_reads_sets), "
+                 "which are exactly equal, \"\" included, for nested specifications (C19_nested_spellings_exact); "
+                 "{} against [] (they flatten to {\"\"} and {}) agree on every tree without an empty field name "
+                 "(C19_spellings_behaviour_named), and only there (C19w_empty_dict_needed: object_fields={} / [] on "
+                 "SearchField('', Word('x')), replayed). Non-vacuity: the mapping and the eight spellings of "
+                 "SPELL_PROPERTIES / SPELLINGS (ex_spell_mapping, ex_spellings_same_names, ex_spellings_behaviour, "
+                 "ex_spelled_queries), object / sub spellings (ex_object_sub_spellings, ex_sub_fields_used), two "
+                 "document types (ex_mapping_two_doctypes). The harness evaluates the mapping-level guards on every "
+                 "judged leaf (guards => the property held on the implementation), checks that the Coq predicates "
+                 "anchor_registered / redeclared equal the Python ones, and that they imply walk_sane / "
+                 "anchor_survives. ---- C19.v — C19_query_partial (proved): a mapped leaf queried in either spelling is never refused and gives "
                  "exactly the expected JSON, under ALL of these guards: wf_schema s (names without dots, distinct "
                  "keys, only leaves have multi-fields ...); coherent s (walked fields with the same dotted name "
                  "agree on being analysed); walk_sane s (a decidable sanity condition on the analyzer's walk - "
-                 "ASSUMED, not derived from wf_schema; evaluated on every generated description); subfield_ok anc d "
+                 "a hypothesis of THIS theorem, derived from the mapping in C19w.v); subfield_ok anc d "
                  "(F12b guard); anchor_survives s anc (F12 / F12c guard - a predicate on the MODELLED WALK "
-                 "iter_fields s, not on the raw description); every component of the path dot-free and non-empty "
+                 "iter_fields s, derived from mapping-level predicates in C19w.v); every component of the path dot-free and non-empty "
                  "(forallb nodot / nonempty_name); query word without wildcard; query nodes unnamed (in `spelling`). "
                  "Non-vacuity: g_simple, and the legacy two-document-type mapping g_legacy2 "
                  "(ex_query_partial_two_doctypes, a leaf of each document type). Options m fed to the builder: both spellings of a mapped path give the same outcome, decided by "
@@ -808,8 +965,8 @@ SPEC = {
                  "C19_nesting_registered_refuted: F12c - the nesting clause under the structural F12 guard "
                  "anchor_registered is still false with two document types); equivalent spellings of a nested / "
                  "object field specification (C19_nested_spellings, C19_object_spellings) conclude equality of the "
-                 "name sets and prefix sets of the builder and its checker, up to the empty name \"\" - there is no "
-                 "theorem on `build` for them, and spellings of `sub_fields` are not covered",
+                 "name sets and prefix sets of the builder and its checker, up to the empty name \"\" (the theorems on "
+                 "`build`, sub_fields included, are in C19w.v)",
     "trusted_base": [
         "Coq 8.16.1 kernel (vm_compute used for the refuting witnesses, examples and correspondence)",
         "no axioms (Print Assumptions: closed under the global context)",
@@ -818,12 +975,16 @@ SPEC = {
         "correspondence (harness/c19.py) on every run: all seven methods + builder outcome per leaf and spelling",
         "builder model coq/model/EsBuild.v, EsCheck.v, EsSpecs.v (owned by C06/C07, validated by their correspondence)",
         "gen/translate.py: visitor method tables, class MROs, E-item class constants",
-        "walk_sane (a decidable sanity condition on the analyzer's walk) is a hypothesis of the nesting theorems, not "
-        "derived from wf_schema; Coq evaluates all guards on every generated case (guards => property held; "
-        "narrowness measured)",
+        "walk_sane / anchor_survives are hypotheses of C19_query_partial only; C19w.v derives them from predicates on "
+        "the mapping (wf_schema, types_agree, anchor_registered, not redeclared); Coq evaluates both sets of guards "
+        "on every generated case (guards => property held; narrowness measured)",
     ],
     "assumptions": ["type / index values are str; no explicit None values; sub-fields carry no explicit empty "
                     "properties", "query word without wildcard characters; unnamed query nodes",
-                    "typing theorems: fields with the same dotted name agree on being analysed (coherent), "
-                    "name components without dots"],
+                    "typing theorems: fields with the same dotted name agree on being analysed (coherent; derived "
+                    "from wf_schema when there is one document type), name components without dots",
+                    "several document types: they agree on which shared paths are nested / explicit objects "
+                    "(types_agree; what Elasticsearch >= 2 demands of the types of one index)",
+                    "spellings: for object_fields / sub_fields None is not a spelling of the empty specification, "
+                    "and {} differs from [] on a field with the empty name (never parsed)"],
 }
